@@ -188,7 +188,11 @@ def Db.delete (d : Db) (mint maxt : Int) (sel : Option Nat) : Db :=
     let stones : List (Nat × Interval) := d.series.filterMap fun s =>
       if hit s.idx then
         match s.phys.head?, s.phys.getLast? with
-        | some f, some l => let (a, b) := clampInterval hm hM f.t l.t; some (s.idx, ⟨a, b⟩)
+        | some f, some l =>
+          let (a, b) := clampInterval hm hM f.t l.t
+          -- the requested range misses the series' own range: nothing to delete (F35, fixed in /repo by
+          -- "fix: tsdb: Head.Delete stores inverted tombstone intervals …": `if t0 > t1 { continue }`)
+          if a > b then none else some (s.idx, ⟨a, b⟩)
         | _, _ => none
       else none
     let d : Db := { d with wal := d.wal ++ [Rec.stones stones] }
